@@ -118,7 +118,24 @@ func (x *Exec) Verify() {
 	}
 	x.curProps = x.c.Props
 	x.loops = computeLoops(x.fn)
+	// a waiter of several kinds (the caller decides which): each kind is
+	// verified separately, from the precondition on
+	kinds := strings.Fields(x.c.Options["waitkinds"])
+	if len(kinds) == 0 {
+		kinds = []string{""}
+	}
+	for _, k := range kinds {
+		x.verifyFrom(k)
+		if x.abstract {
+			return
+		}
+	}
+}
+
+func (x *Exec) verifyFrom(kind string) {
 	cfg := x.initialConfig()
+	cfg.kind = kind
+	x.curCfg = cfg
 	func() {
 		defer x.catch("precondition setup")
 		env := x.entryEnv(cfg)
@@ -279,7 +296,7 @@ func (x *Exec) runPath(cfg *Config) (forks []*Config) {
 // It returns false if the path ends (back edge).
 func (x *Exec) gotoBlock(cfg *Config, f *Frame, to *ssa.BasicBlock) bool {
 	from := f.block
-	if len(cfg.frames) == 1 {
+	if f.depth == 0 && len(cfg.frames) == 1 {
 		if ord, isHeader := x.loops.headers[to]; isHeader {
 			return x.enterLoopHeader(cfg, f, from, to, ord)
 		}
@@ -293,11 +310,21 @@ func (x *Exec) gotoBlock(cfg *Config, f *Frame, to *ssa.BasicBlock) bool {
 		}
 	} else {
 		if li := x.loopsOf(f.fn); li != nil {
-			if _, isHeader := li.headers[to]; isHeader {
+			if ord, isHeader := li.headers[to]; isHeader {
 				if x.c != nil && x.c.Options["sweep"] == "true" {
 					return x.sweepLoopHeader(cfg, f, from, to, li)
 				}
+				if ic := x.P.ContractFor(f.fn); ic != nil && ic.Inline && f.watcher == nil && !f.isDefer {
+					return x.enterLoopHeader(cfg, f, from, to, ord)
+				}
 				unsupported("loop in inlined function %s (needs a contract)", fullKey(f.fn))
+			}
+			for len(cfg.loops) > 0 {
+				le := cfg.loops[len(cfg.loops)-1]
+				if le.depth < f.depth || (le.depth == f.depth && li.body[le.header][to]) {
+					break
+				}
+				cfg.loops = cfg.loops[:len(cfg.loops)-1]
 			}
 		}
 	}
